@@ -297,7 +297,9 @@ func onResourceRuleUpdate(res string, rawResRules []*Rule) (err error) {
 	}
 	rebuildRefTcMapLocked()
 	tcMux.Unlock()
-	currentRules[res] = rawResRules
+	// keep a copy of the list: the caller may go on using its slice (replace an element and load it
+	// again), and a slice compared with itself always looks unchanged
+	currentRules[res] = append([]*Rule(nil), rawResRules...)
 	logging.Debug("[Flow onResourceRuleUpdate] Time statistic(ns) for updating flow rule", "timeCost", util.CurrentTimeNano()-start)
 	logging.Info("[Flow] load resource level rules", "resource", res, "validResRules", validResRules)
 	return nil
